@@ -5,11 +5,12 @@ use crate::run::Property;
 pub mod c01;
 pub mod c02;
 pub mod c03;
+pub mod c04;
 pub mod c05;
 pub mod c06;
 
 pub fn all() -> Vec<Property> {
-    vec![c01::property(), c02::property(), c03::property(), c05::property(), c06::property()]
+    vec![c01::property(), c02::property(), c03::property(), c04::property(), c05::property(), c06::property()]
 }
 
 pub fn by_id(id: &str) -> Option<Property> {
